@@ -171,8 +171,8 @@ def run(model: RepoModel, rep, tier: str):
     check_accumulating_loops(model, rep, "C08.R4")
     from ..generic import check_accumulators
 
-    def _widening(x, guards, pre):
-        return any(w in g for g in guards for w in WIDEN_GUARD) or any(w in " ".join(ast.unparse(s_).split()) for s_ in pre for w in WIDEN_PRE)
+    def _widening(x, guards, pre, fnode=None):
+        return fnode is not None and is_widened(fnode, guards, pre)
     check_accumulators(model, rep, "C08.R6", [SS, GSS, "core/resolver.py", "core/prelim_semantics.py", "core/global_semantics.py"], C08_ADJUDICATED,
                        "states, callees or summary entries that reach this point on some path are missing from the computed set (the abstract "
                        "value no longer covers them)", 40, widening=_widening)
@@ -309,11 +309,56 @@ ADJUDICATED_EXITS = {
     ("StmtStates.slice_read_stmt_state", "start_value < end_value < array_length and array_state.array[start_value:end_value:step_value]"):
         "an out-of-range combination contributes no element; whether the remaining combinations should still be tried is not decided here",
 }
-WIDEN_GUARD = ("tangping_flag", "STATE_TYPE_KIND.ANYTHING", "STATE_TYPE_KIND.UNSOLVED")
-WIDEN_PRE = ("tangping_flag = True", "make_state_tangping(", "STATE_TYPE_KIND.ANYTHING", "STATE_TYPE_KIND.UNSOLVED")
+WIDEN_MARKS = ("make_state_tangping(", "make_state_index_tangping", "STATE_TYPE_KIND.ANYTHING", "STATE_TYPE_KIND.UNSOLVED")
+
+
+def widening_flags(fnode) -> Set[str]:
+    """Local boolean flags whose truth leads to a widening: names tested by an `if` whose taken branch makes a state tangping or
+    creates an ANYTHING/UNSOLVED state (found by role, not by name)."""
+    out: Set[str] = set()
+    for n in walk_no_nested(fnode):
+        if isinstance(n, ast.If):
+            names = {x.id for x in ast.walk(n.test) if isinstance(x, ast.Name)}
+            if not names or len(names) > 2:
+                continue
+            neg = isinstance(n.test, ast.UnaryOp) and isinstance(n.test.op, ast.Not)
+            branch = n.orelse if neg else n.body
+            txt = " ".join(" ".join(ast.unparse(b).split()) for b in branch)
+            # `if not flag: continue` followed by the widening in the rest of the block is the same thing
+            if any(m in txt for m in WIDEN_MARKS):
+                out |= names
+            elif neg and any(isinstance(b, (ast.Continue, ast.Return)) for b in n.body):
+                out |= names
+    # keep only names that are assigned a boolean constant somewhere in the function
+    bools = {t.id for n in walk_no_nested(fnode) if isinstance(n, ast.Assign) and isinstance(n.value, ast.Constant) and isinstance(n.value.value, bool)
+             for t in n.targets if isinstance(t, ast.Name)}
+    bools |= {t.id for n in walk_no_nested(fnode) if isinstance(n, ast.Assign) and isinstance(n.value, ast.Attribute) and "flag" in n.value.attr
+              for t in n.targets if isinstance(t, ast.Name)}
+    return out & bools
+
+
+def is_widened(fnode, guards: List[str], pre: List[ast.stmt], _cache={}) -> bool:
+    flags = _cache.get(id(fnode))
+    if flags is None:
+        flags = _cache[id(fnode)] = widening_flags(fnode)
+    import re as _re
+    if any(m in g for g in guards for m in WIDEN_MARKS[2:]):
+        return True
+    if any(_re.search(rf"(?<![\w.]){_re.escape(f)}(?![\w])", g) for g in guards for f in flags):
+        return True
+    for s_ in pre:
+        t = " ".join(ast.unparse(s_).split())
+        if any(m in t for m in WIDEN_MARKS):
+            return True
+        if isinstance(s_, ast.Assign) and isinstance(s_.value, ast.Constant) and s_.value.value is True \
+                and any(isinstance(tg, ast.Name) and tg.id in flags for tg in s_.targets):
+            return True
+    return False
 
 
 def check_accumulating_loops(model: RepoModel, rep, RID: str):
+    from ..model import canon_code
+    _ADJ_C = {(fn, canon_code(g)): why for (fn, g), why in ADJUDICATED_EXITS.items()}
     """Shared by C08 (R4) and C09 (R4).  A transfer function computes the abstract value of its result as a union over the
     abstract values of its sources; a loop that accumulates states must therefore either run to completion or, when it stops
     early, widen the result to an explicit unknown.  `break`/`return` inside such a loop without widening keeps the first few
@@ -366,13 +411,19 @@ def check_accumulating_loops(model: RepoModel, rep, RID: str):
                 while id(cur) in enc and enc[id(cur)] is not nearest:
                     cur = enc[id(cur)]
                     if isinstance(cur, ast.If):
-                        guards.append(norm(cur.test))
+                        guards.append(" ".join(ast.unparse(cur.test).split()))
                 gtxt = guards[0] if guards else "<unconditional>"
-                key = f"{rel}::{cname}.{f.name}::{'break' if isinstance(n, ast.Break) else 'return'} under `{gtxt[:110]}`"
-                widened = any(w in g for g in guards for w in WIDEN_GUARD) or any(w in " ".join(ast.unparse(s_).split()) for s_ in pre for w in WIDEN_PRE)
+                key = f"{rel}::{cname}.{f.name}::{'break' if isinstance(n, ast.Break) else 'return'} under `{gtxt}`"
+                guards_full = []
+                cur = n
+                while id(cur) in enc and enc[id(cur)] is not nearest:
+                    cur = enc[id(cur)]
+                    if isinstance(cur, ast.If):
+                        guards_full.append(" ".join(ast.unparse(cur.test).split()))
+                widened = is_widened(f.node, guards_full, pre)
                 if isinstance(n, ast.Return) and n.value is not None and "interruption" in norm(n.value):
                     widened = True      # the statement is re-evaluated after the callee has been analysed
-                adj = ADJUDICATED_EXITS.get((f"{cname}.{f.name}", gtxt))
+                adj = _ADJ_C.get((f"{cname}.{f.name}", canon_code(gtxt)))
                 if widened:
                     rep.holds(RID, key, rel, n.lineno, "early exit guarded/preceded by a widening to unknown")
                 elif adj:
@@ -393,22 +444,22 @@ def _t(old, new, count=1):
     return lambda src: __import__("sa.mutate", fromlist=["x"]).text_replace(src, old, new, count)
 
 
-_CS = "self.is_state_a_class_decl(each_state) or each_state.data_type == LIAN_INTERNAL.THIS or name_symbol."
+_CS = "self.is_state_a_class_decl(each_state) or each_state.data_type == LIAN_INTERNAL.THIS or name_symbol.name == LIAN_INTERNAL.THIS"
 C08_ADJUDICATED = {
-    f"core/stmt_states.py::StmtStates.call_stmt_state::{a}::return under `{_CS}`":
+    f"core/stmt_states.py::StmtStates.call_stmt_state::`{a}`::return under `{_CS}`":
         "delegation, not truncation: a callee name that may be a class hands the whole statement to new_object_stmt_state, which re-reads all name states"
     for a in ("unsolved_callee_states", "this_state_set", "callee_method_ids")
 }
 C08_ADJUDICATED.update({
-    "core/stmt_states.py::StmtStates.array_read_stmt_state::index_values::break under `not (this_value and len(str(this_value)) > 0 and re.match('^-?\\\\d+$', str(this_value)))`":
+    "core/stmt_states.py::StmtStates.array_read_stmt_state::`index_values`::break under `not (this_value and len(str(this_value)) > 0 and re.match('^-?\\\\d+$', str(this_value)))`":
         "a non-numeric index empties index_values on purpose: the empty set selects the branch that reads every element of the array (widening)",
-    "core/stmt_states.py::StmtStates.array_read_stmt_state::index_values::rebound `index_values = set()`":
+    "core/stmt_states.py::StmtStates.array_read_stmt_state::`index_values`::rebound `index_values = set()`":
         "same site: the reset is the widening",
-    "core/stmt_states.py::StmtStates.array_write_stmt_state::index_values::break under `not (this_value and re.match('^-?\\\\d+$', str(this_value)) and (this_value != ''))`":
+    "core/stmt_states.py::StmtStates.array_write_stmt_state::`index_values`::break under `not (this_value and re.match('^-?\\\\d+$', str(this_value)) and (this_value != ''))`":
         "a non-numeric index empties index_values on purpose: the empty set selects the branch that makes the array tangping (widening)",
-    "core/stmt_states.py::StmtStates.array_write_stmt_state::index_values::rebound `index_values = set()`":
+    "core/stmt_states.py::StmtStates.array_write_stmt_state::`index_values`::rebound `index_values = set()`":
         "same site: the reset is the widening",
-    "core/stmt_states.py::StmtStates.slice_read_stmt_state::defined_states::break under `not (start_value < end_value < array_length and array_state.array[start_value:end_value:step_value])`":
+    "core/stmt_states.py::StmtStates.slice_read_stmt_state::`defined_states`::break under `not (start_value < end_value < array_length and array_state.array[start_value:end_value:step_value])`":
         "an out-of-range combination contributes no element; whether the remaining combinations should still be tried is not decided here",
 })
 
